@@ -197,4 +197,8 @@ theorem tidField_fresh : tidField TidState.fresh = List.replicate 6 0 ∧ ¬ tid
 
 theorem tidCachedBeforeUse_tie : tidCachedBeforeUse = cachedBeforeUse implSteps := by decide
 
+/-- the request of the F18 witness (corpus/C17/F18-setTimeZone-inside-cached-second.case) at instant `us` -/
+def f18Req (us : Int) : LogReq :=
+  { level := 3, errno := 0, errText := [], func := none, file := [97, 46, 99, 99], line := 10, tid := 1400, us := us, msg := [] }
+
 end MuduoVerif.LogStream
